@@ -224,6 +224,30 @@ partial def exprHasRandom : Expr → Bool
   | .bin _ l r => exprHasRandom l || exprHasRandom r
   | .call f args => f == "random" || args.any exprHasRandom
 
+/-- where an evaluation error struck: the statement (or loop state) of the innermost active iterator and its
+nesting depth — for the evidence only (distribution of the error sites the continued runs went through) -/
+partial def errSiteOf : It → Nat → String
+  | .mk rest st, depth =>
+    match st with
+    | .iterate =>
+      match rest with
+      | (.letS _ _) :: _ => "let@" ++ toString depth
+      | (.row _ _) :: _ => "row@" ++ toString depth
+      | (.loop _ _ _) :: _ => "loop-header@" ++ toString depth
+      | _ => "other@" ++ toString depth
+    | .inner it _ => errSiteOf it (depth + 1)
+    | .whileInner it _ => errSiteOf it (depth + 1)
+    | .startWhile _ => "while-condition@" ++ toString depth
+    | _ => "other@" ++ toString depth
+
+/-- the iterator in front of the failing turn of a `next_with_context` that returns an error -/
+partial def failingIt (fuel : Nat) (it : It) (c : Ctx) : Option It :=
+  if fuel == 0 then none else
+  match step it c with
+  | .cont it' c' => failingIt (fuel - 1) it' c'
+  | .err _ => some it
+  | _ => none
+
 /-- Items of a run.  Up to and including the first error item this is what every comparison uses.  Behind a
 `posterr` marker the run is continued behind every error item — the state `RowIt.nextC` returns there is the one
 the code is left in (`Model/AfterError`): behind an error of the IO step, behind an evaluation error (the failing
@@ -248,6 +272,11 @@ partial def runItems (ownWo : Bool) (tc : TestCase) (drv : Driver (List DrvResp)
     | .item (.err e) s' d' calls =>
       let acc := calls.foldl (fun a c => a.push (callLine ownWo tc c)) acc
       let acc := (acc.push ("item " ++ toString k ++ " err " ++ errClass e)).push ("# " ++ errDetail e)
+      let acc := if calls.isEmpty && s.cache.isEmpty then
+          (match failingIt 200000 s.it s.ctx with
+           | some it => acc.push ("# errsite " ++ errSiteOf it 0)
+           | none => acc)
+        else acc
       let acc := if nErr == 0 then acc.push "posterr" else acc
       if nErr + 1 ≥ 5 then acc
       else runItems ownWo tc drv cap (k + 1) s' d' (nErr + 1) virtRandom acc
